@@ -146,7 +146,9 @@ impl DeriveShape for ModuleDef {
         // Enforce output constraint if present.
         // If narrowing fails, return the TypeErr directly so it surfaces to the caller.
         if let Some(ref constraint_expr) = self.out_constraint {
-            let constraint_shape = constraint_expr.derive_shape(symbol_table);
+            let constraint_shape = constraint_expr
+                .derive_shape(symbol_table)
+                .with_pos(constraint_expr.pos().clone());
             let narrowed = ret.narrow(&constraint_shape, symbol_table);
             if let Shape::TypeErr(_, _) = &narrowed {
                 return narrowed;
@@ -316,7 +318,10 @@ fn derive_copy_shape(def: &CopyDef, symbol_table: &mut BTreeMap<Rc<str>, Shape>)
                 .fields
                 .iter()
                 .map(|(tok, _constraint, expr)| {
-                    (tok.fragment.clone(), expr.derive_shape(symbol_table))
+                    // Positioned at the field's value so that a mismatch is reported
+                    // here and not where that value was defined.
+                    let shape = expr.derive_shape(symbol_table);
+                    (tok.fragment.clone(), shape.with_pos(expr.pos().clone()))
                 })
                 .collect::<BTreeMap<Rc<str>, Shape>>();
             // 1. Do our copyable fields have the right names and shapes based on mdef.items.
@@ -378,6 +383,13 @@ fn derive_call_shape(def: &CallDef, symbol_table: &mut BTreeMap<Rc<str>, Shape>)
                     if let Shape::TypeErr(pos, msg) =
                         declared_shape.narrow(&actual_shape, symbol_table)
                     {
+                        // A mismatch is reported at the argument, not where its
+                        // value was defined.
+                        let pos = if let Shape::TypeErr(_, _) = &actual_shape {
+                            pos
+                        } else {
+                            arg_expr.pos().clone()
+                        };
                         return Shape::TypeErr(pos, msg);
                     }
                 }
@@ -618,6 +630,16 @@ impl DeriveShape for Expression {
                     shape
                 } else {
                     let right_shape = def.right.derive_shape(symbol_table);
+                    // A mismatch between two operands that are fine on their own belongs to
+                    // this expression, not to wherever the operands got their shapes from.
+                    let operands_ok = !matches!(left_shape, Shape::TypeErr(_, _))
+                        && !matches!(right_shape, Shape::TypeErr(_, _));
+                    let at_operand = |shape: Shape| match shape {
+                        Shape::TypeErr(_, msg) if operands_ok => {
+                            Shape::TypeErr(def.right.pos().clone(), msg)
+                        }
+                        other => other,
+                    };
                     match &def.kind {
                         // Comparison operators return Boolean
                         BinaryExprType::Equal
@@ -637,7 +659,7 @@ impl DeriveShape for Expression {
                         // Boolean operators require boolean operands
                         BinaryExprType::AND | BinaryExprType::OR => {
                             // Narrow to check compatibility
-                            let narrowed = left_shape.narrow(&right_shape, symbol_table);
+                            let narrowed = at_operand(left_shape.narrow(&right_shape, symbol_table));
                             if let Shape::TypeErr(_, _) = &narrowed {
                                 narrowed
                             } else {
@@ -645,7 +667,7 @@ impl DeriveShape for Expression {
                             }
                         }
                         // Math operators narrow types
-                        _ => left_shape.narrow(&right_shape, symbol_table),
+                        _ => at_operand(left_shape.narrow(&right_shape, symbol_table)),
                     }
                 }
             }
@@ -1145,7 +1167,7 @@ fn derive_field_list_shape(
     for (tok, constraint, expr) in flds {
         let value_shape = expr.derive_shape(symbol_table);
         let shape = if let Some(c) = constraint {
-            let constraint_shape = c.derive_shape(symbol_table);
+            let constraint_shape = c.derive_shape(symbol_table).with_pos(c.pos().clone());
             let narrowed = value_shape.narrow(&constraint_shape, symbol_table);
             if let Shape::TypeErr(_, _) = &narrowed {
                 return narrowed;
@@ -1500,7 +1522,9 @@ impl Visitor for Checker {
                 }
                 // Enforce constraint if present
                 if let Some(ref constraint_expr) = def.constraint {
-                    let constraint_shape = constraint_expr.derive_shape(&mut self.symbol_table);
+                    let constraint_shape = constraint_expr
+                        .derive_shape(&mut self.symbol_table)
+                        .with_pos(constraint_expr.pos().clone());
                     let narrowed = shape.narrow(&constraint_shape, &mut self.symbol_table);
                     if let Shape::TypeErr(pos, msg) = &narrowed {
                         self.err_stack.push(BuildError::with_pos(
